@@ -53,12 +53,8 @@ def flex_reference(case):
     items = sorted(case['items'], key=lambda it: it['order'])
     st = []
     for it in items:
-        if it[p1] or it[p2]:
-            return None                  # known finding flex-padding-not-counted
         if it['grow'] < 0 or it['shrink'] < 0:
             return None
-        if not row and (it['minw'] is not None or it['maxw'] is not None):
-            return None                  # known finding flex-column-clamps-by-width
         if not row and (it['mt'] is None or it['mb'] is None):
             return None                  # known finding flex-vertical-auto-margins-zeroed
         if it['basis'] == 'content' or (it['basis'] == 'auto' and it[size_k] is None):
@@ -74,7 +70,7 @@ def flex_reference(case):
         mn = _v(it[min_k])
         mx = inf if it[max_k] is None else F(it[max_k])
         hyp = max(mn, min(base, mx))
-        extra = _v(it[m1]) + _v(it[m2]) + it[b1] + it[b2]
+        extra = _v(it[m1]) + _v(it[m2]) + it[b1] + it[b2] + it[p1] + it[p2]
         st.append({'it': it, 'base': base, 'min': mn, 'max': mx, 'hyp': hyp, 'extra': F(extra),
                    'autos': (it[m1] is None) + (it[m2] is None)})
     if main is None:
@@ -136,18 +132,17 @@ def flex_reference(case):
                 s['target'] = clamped
                 total += s['violation']
             if any(s['violation'] for s in unfrozen):
-                result['clamped'] = True   # configuration of known finding flex-clamp-no-redistribute
+                result['clamped'] = True   # a min / max violation froze an item (9.7.5.d-e): judged like the rest
             for s in unfrozen:
                 if total == 0 or (total > 0 and s['violation'] > 0) or (total < 0 and s['violation'] < 0):
                     s['frozen'] = True
         # 9.5 main-axis alignment
         free_space = main - gaps - sum(s['target'] + s['extra'] for s in line)
         autos = sum(s['autos'] for s in line)
-        if autos and free_space < 0:
-            return None                  # known finding flex-negative-auto-margin
+        # auto margins absorb positive free space only; the overflow is left to justify-content
         each = free_space / autos if autos and free_space > 0 else F(0)
         if autos:
-            free_space = F(0)
+            free_space = min(F(0), free_space)
         justify = justify0
         if justify == 'normal':
             justify = 'flex-start'
@@ -177,7 +172,7 @@ def flex_reference(case):
             after = each if it[m2k] is None else F(it[m2k])
             if rev:
                 before, after = after, before
-            border = s['target'] + it[b1] + it[b2]
+            border = s['target'] + it[b1] + it[b2] + it[p1] + it[p2]
             edge = pos + before
             result['main'][it['id']] = (main - edge - border if rev else edge, border)
             pos = edge + border + after + between + gap
@@ -211,8 +206,8 @@ def flex_violation(case, parsed):
                             f'css-flexbox gives {float(want_pos)}/{float(want_size)}')
     if not problems:
         return None
-    if ref['clamped'] or ref['fractional']:
-        return None                      # may be a listed known finding (clamp / fractional factor sum)
+    if ref['fractional']:
+        return None                      # may be the listed known finding flex-fractional-factor-sum
     return '; '.join(problems[:3])
 
 
@@ -231,8 +226,8 @@ def flex_cross_violation(case, parsed):
     for ident, x, y, w, h in rects:
         it = items[ident]
         m1, m2 = (it['mt'], it['mb']) if row else (it['ml'], it['mr'])
-        if m1 is None or m2 is None:
-            continue                     # known findings on auto cross margins
+        if (m1 is None or m2 is None) and row:
+            continue                     # known finding flex-vertical-auto-margins-zeroed
         if row and (it['minh'] is not None or it['maxh'] is not None):
             continue
         if not row and (it['minw'] is not None or it['maxw'] is not None):
@@ -245,6 +240,17 @@ def flex_cross_violation(case, parsed):
         if align == 'normal':
             align = 'stretch'
         pos, size = (y, h) if row else (x, w)
+        if m1 is None or m2 is None:
+            # css-flexbox 9.6 step 13: auto cross margins share the positive free cross space; otherwise the start
+            # margin is zero (the item is not stretched: 9.4 step 11 requires non-auto margins)
+            want_size = F(size_prop or 0) + pb
+            free = cross - want_size - _v(m1) - _v(m2)
+            autos = (m1 is None) + (m2 is None)
+            want_pos = (free / autos if free > 0 else F(0)) if m1 is None else F(m1)
+            if abs(size - want_size) > TOL or abs(pos - want_pos) > TOL:
+                return (f'item {ident} (auto cross margins): cross-axis position/size {float(pos)}/{float(size)} in a '
+                        f'line of {float(cross)}, css-flexbox gives {float(want_pos)}/{float(want_size)}')
+            continue
         if align == 'stretch' and size_prop is None:
             want_size = max(cross - F(m1) - F(m2) - pb, 0) + pb
             want_pos = F(m1)
@@ -269,7 +275,7 @@ def flex_lines_violation(case, parsed):
     if parsed is None or case['wrap'] != 'wrap' or not case['dir'].startswith('row') or case['height'] is None:
         return None
     ref = flex_reference(case)
-    if ref is None or ref['clamped'] or ref['fractional'] or len(ref['lines']) < 2:
+    if ref is None or ref['fractional'] or len(ref['lines']) < 2:
         return None
     items = {it['id']: it for it in case['items']}
     for it in case['items']:
@@ -277,6 +283,7 @@ def flex_lines_violation(case, parsed):
             return None
     _, rects = parsed
     ys = {r[0]: r[2] for r in rects}
+    hs = {r[0]: r[4] for r in rects}
     gap = F(case['rowgap'])
     crosses = []
     for line in ref['lines']:
@@ -304,20 +311,27 @@ def flex_lines_violation(case, parsed):
         start = between
     pos = start
     for line, cross in zip(ref['lines'], crosses):
-        last = items[line[-1]]
-        align = last['align'] if last['align'] != 'auto' else case['align_items']
-        if align in ('normal', 'stretch', 'flex-start', 'start', 'self-start'):
-            want = pos + F(last['mt'])
-            if abs(ys[last['id']] - want) > TOL:
-                return (f'item {last["id"]} (last of its line, align {align}) is at y = {float(ys[last["id"]])}; '
-                        f'align-content {kind} puts its line at {float(pos)}: expected {float(want)}')
+        for ident in line:
+            it = items[ident]
+            align = it['align'] if it['align'] != 'auto' else case['align_items']
+            if align in ('normal', 'stretch', 'flex-start', 'start', 'self-start'):
+                want = pos + F(it['mt'])
+            elif align in ('flex-end', 'end', 'self-end'):
+                want = pos + cross - F(it['mb']) - hs[ident]
+            elif align == 'center':
+                want = pos + (cross - F(it['mt']) - F(it['mb']) - hs[ident]) / 2 + F(it['mt'])
+            else:
+                continue
+            if abs(ys[ident] - want) > TOL:
+                return (f'item {ident} (align {align}) is at y = {float(ys[ident])}; align-content {kind} puts its '
+                        f'line at {float(pos)} (cross size {float(cross)}): expected {float(want)}')
         pos += cross + gap + between
     return None
 
 
 def second_violation(meta, impl):
     """Sparse `_get_second_placement` with an automatic (unnamed) second axis: the item goes right after the
-    tracks occupied on its rows (when some are: see the known finding for the empty case)."""
+    tracks occupied on its rows, in the first track when none is."""
     if meta['dense'] or not impl.startswith('('):
         return None
     ss, se = meta['ss'], meta['se']
@@ -330,10 +344,8 @@ def second_violation(meta, impl):
             occupied.update(range(x, x + w))
         if meta['flow'] == 'column' and intersect_reference(x, w, *fp):
             occupied.update(range(y, y + h))
-    if not occupied:
-        return None
     span = 1 if se == 'auto' else (se[1] or 1)
-    want = f'({max(occupied) + 1} {span})'
+    want = f'({max(occupied) + 1 if occupied else 0} {span})'
     if impl != want:
         return (f'_get_second_placement(first={fp}, end={se}, occupied tracks {sorted(occupied)}) = {impl}: the next '
                 f'free position after the occupied tracks is {want}')
@@ -377,6 +389,96 @@ def placement_reference(start, end, n_lines):
     return (e[1] - 1 - size, size)
 
 
+def named_line_reference(place, lines, side):
+    """css-grid 8.3 <integer>? <custom-ident>? for a non-span grid line with a positive integer: 0-based index of
+    the line.  `lines` = names of the explicit lines.  -> None (not judged) | int."""
+    span, number, ident = place
+    if span is not None or (number is not None and number <= 0):
+        return None
+    if ident is None:
+        return number - 1
+    if number is None:
+        for i, names in enumerate(lines):
+            if f'{ident}-{side}' in names:
+                return i
+        number = 1
+    occ = [i for i, names in enumerate(lines) if ident in names]
+    if len(occ) >= number:
+        return occ[number - 1]
+    # not enough lines with that name: the implicit lines after the explicit grid are assumed to have it
+    return len(lines) - 1 + (number - len(occ))
+
+
+def placement_reference_named(start, end, lines):
+    """css-grid 8.3 / 8.3.1 with line names: numbers (positive), `n name`, `name`, `span n`, `span n name` against the
+    names of the explicit lines.  -> None (not judged) | 'auto' | (coord, size)."""
+    def is_span(p):
+        return p != 'auto' and p[0] == 'span'
+    if (start == 'auto' or is_span(start)) and (end == 'auto' or is_span(end)):
+        return 'auto'
+    n_lines = len(lines)
+    if start != 'auto' and not is_span(start):
+        s = named_line_reference(start, lines, 'start')
+        if s is None or s < 0:
+            return None
+        if end == 'auto':
+            return (s, 1)
+        if is_span(end):
+            k, name = end[1] or 1, end[2]
+            if name is None:
+                return (s, k)
+            if s + 1 >= n_lines:
+                return None              # known finding grid-named-span-from-last-line (the span is doubled)
+            occ = [i for i in range(s + 1, n_lines) if name in lines[i]]
+            e = occ[k - 1] if len(occ) >= k else max(n_lines - 1, s) + (k - len(occ))
+            return (s, e - s)
+        e = named_line_reference(end, lines, 'end')
+        if e is None:
+            return None
+        if s == e:
+            return (s, 1)
+        return (min(s, e), abs(e - s))
+    # start is auto or a span, end is a line
+    e = named_line_reference(end, lines, 'end')
+    if e is None or e <= 0:
+        return None
+    if start == 'auto':
+        return (e - 1, 1)
+    k, name = start[1] or 1, start[2]
+    if name is None:
+        return (e - k, k)
+    if k != (1 if end[1] is None else (end[1] if end[2] is None else None)):
+        return None                      # known finding grid-backward-named-span-count (the end line's integer is used)
+    # the k-th line called `name` strictly before the end line, searching backwards; not enough of them: the
+    # implicit lines before the explicit grid are assumed to have the name
+    occ = [i for i in range(min(e, n_lines) - 1, -1, -1) if name in lines[i]]
+    if e > n_lines:
+        return None                      # end line after the explicit grid: implicit lines in between, not judged
+    s = occ[k - 1] if len(occ) >= k else -(k - len(occ))
+    return (s, e - s)
+
+
+def template_line_names(template, areas_tracks=0):
+    """Names of the explicit lines of a `grid-template-rows/columns` value of the generators (repeat() expanded);
+    an explicit grid has at least `max(1, areas_tracks)` tracks (tracks added from grid-auto-*)."""
+    names = [[]]
+    for e in template or []:
+        if e[0] == 'names':
+            names[-1].extend(e[1])
+        elif e[0] == 'size':
+            names.append([])
+        else:
+            for _ in range(e[1]):
+                for x in e[2]:
+                    if x[0] == 'names':
+                        names[-1].extend(x[1])
+                    else:
+                        names.append([])
+    while len(names) - 1 < max(1, areas_tracks):
+        names.append([])
+    return names
+
+
 def areas_overlap(a, b):
     return (intersect_reference(a[0], a[2], b[0], b[2]) and intersect_reference(a[1], a[3], b[1], b[3]))
 
@@ -408,14 +510,20 @@ def grid_doc_violation(doc, out):
             i += 1
     positions = {int(p[0]): tuple(int(v) for v in p[1:]) for p in fields.get('pos', [])}
     items = {it['id']: it for it in doc['items']}
-    # explicit placement
+    # explicit placement (with the names of the template lines when there are no template areas)
+    names = None
+    if doc['areas'] is None:
+        names = {'column': template_line_names(doc['cols']), 'row': template_line_names(doc['rows'])}
     for ident, (x, y, w, h) in positions.items():
         it = items[ident]
         for axis, start, end, got in (('column', it['cs'], it['ce'], (x, w)), ('row', it['rs'], it['re'], (y, h))):
             want = placement_reference(start, end, None)
+            if want is None and names is not None:
+                want = placement_reference_named(start, end, names[axis])
             if want not in (None, 'auto') and want != got:
-                return (f'item {ident}: grid-{axis} {start}/{end} placed at (line index, span) {got}, '
-                        f'css-grid gives {want}')
+                return (f'item {ident}: grid-{axis} {show_place(start)} / {show_place(end)} '
+                        + (f'(line names {names[axis]}) ' if names is not None else '') +
+                        f'placed at (line index, span) {got}, css-grid gives {want}')
     # placement by template area: the item occupies the rectangle of the named area
     if doc['areas'] is not None:
         rect = {}
@@ -447,17 +555,19 @@ def grid_doc_violation(doc, out):
     return None
 
 
+def show_place(p):
+    return 'auto' if p == 'auto' else ' '.join(str(x) for x in p if x is not None)
+
+
 def grid_known_crash(doc):
-    """Configurations of the known findings grid-span-first-axis-crash / grid-named-span-hang /
-    grid-negative-line: a crash or hang there is already listed."""
-    if doc['flow'] == 'column':
-        return True                      # grid-column-flow-implicit-start
+    """Configurations of the known findings grid-named-span-hang / grid-negative-line-numbers /
+    grid-leading-implicit-tracks-misindexed: a crash or hang there is already listed."""
     for it in doc['items']:
         for p in (it['rs'], it['re'], it['cs'], it['ce']):
-            if p != 'auto' and (p[0] == 'span' or (p[1] or 1) < 0 or p[2] is not None):
-                return True
+            if p != 'auto' and ((p[1] or 1) < 0 or (p[0] == 'span' and p[2] is not None)):
+                return True              # negative line number / span to a line name
         for start, end in ((it['rs'], it['re']), (it['cs'], it['ce'])):
-            if start == 'auto' and end != 'auto':
+            if (start == 'auto' or start[0] == 'span') and end != 'auto' and end[0] != 'span':
                 return True              # a line given as end only: tracks before the explicit grid
     return False
 
@@ -488,8 +598,8 @@ def _align_tracks(kind, size, tracks, gap):
 
 
 def grid_geometry_violation(doc, out):
-    """Tracks aligned per justify-content / align-content, every item inside its area and aligned per
-    justify-self / align-self (items without margins, paddings and borders)."""
+    """Tracks aligned per justify-content / align-content (gaps included), every item's margin box inside its area:
+    equal to it for stretch / normal, aligned per justify-self / align-self otherwise (non-auto margins)."""
     from vlib import sx
     if not out.startswith('ok '):
         return None
@@ -512,8 +622,6 @@ def grid_geometry_violation(doc, out):
     cols = [F(v) for v in fields.get('cols', [])]
     rows = [F(v) for v in fields.get('rows', [])]
     spaced = ('space-between', 'space-around', 'space-evenly')
-    if doc['colgap'] and doc['jc'] in spaced + ('center', 'end', 'flex-end', 'right'):
-        return None                      # known finding grid-justify-ignores-gap
     col_pos = _align_tracks(doc['jc'], doc['width'], cols, F(doc['colgap']))
     row_pos = _align_tracks(doc['ac'], doc['height'], rows, F(doc['rowgap']))
     items = {it['id']: it for it in doc['items']}
@@ -521,32 +629,37 @@ def grid_geometry_violation(doc, out):
         ident = int(r[0])
         x, y, w, h = (F(v) for v in r[1:])
         it = items[ident]
-        if any(it[k] for k in ('ml', 'mr', 'mt', 'mb', 'pl', 'pr', 'pt', 'pb', 'bl', 'br', 'bt', 'bb')) or \
-                None in (it['ml'], it['mr'], it['mt'], it['mb']):
-            continue
         ax, ay, aw, ah = positions[ident]
         if ax + aw > len(cols) or ay + ah > len(rows):
             continue
-        for axis, pos, size, start, span, tracks, tpos, gap, kind, self_kind, items_kind, prop in (
-                ('column', x, w, ax, aw, cols, col_pos, F(doc['colgap']), doc['jc'], it['js'], doc['ji'], it['width']),
-                ('row', y, h, ay, ah, rows, row_pos, F(doc['rowgap']), doc['ac'], it['as'], doc['ai'], it['height'])):
+        for axis, pos, size, start, span, tracks, tpos, gap, kind, self_kind, items_kind, prop, m1, m2, pb in (
+                ('column', x, w, ax, aw, cols, col_pos, F(doc['colgap']), doc['jc'], it['js'], doc['ji'], it['width'],
+                 it['ml'], it['mr'], it['pl'] + it['pr'] + it['bl'] + it['br']),
+                ('row', y, h, ay, ah, rows, row_pos, F(doc['rowgap']), doc['ac'], it['as'], doc['ai'], it['height'],
+                 it['mt'], it['mb'], it['pt'] + it['pb'] + it['bt'] + it['bb'])):
             if span > 1 and kind in spaced:
                 continue
+            if m1 is None or m2 is None:
+                continue                 # auto margins of grid items: not judged (not implemented, a TODO in the code)
+            m1, m2, pb = F(m1), F(m2), F(pb)
             area_start = tpos[start]
             area_size = sum(tracks[start:start + span], F(0)) + gap * (span - 1)
+            # the margin box is the area (stretch) or is aligned inside it; sizes are border-box sizes
+            room = area_size - m1 - m2 - pb
+            if room < 0:
+                continue                 # the area cannot hold the margins, paddings and borders: overflow, not judged
             align = items_kind if self_kind == 'auto' else self_kind
-            if align in ('normal', 'stretch') and prop is None:
-                want_pos, want_size = area_start, max(area_size, 0)
+            if align in ('normal', 'stretch'):
+                want_size = max(F(prop or 0), room) + pb
+                want_pos = area_start + m1
             else:
-                want_size = F(prop or 0)
-                if align in ('normal', 'stretch'):
-                    want_size = max(want_size, area_size)
+                want_size = F(prop or 0) + pb
                 if align == 'center':
-                    want_pos = area_start + (area_size - want_size) / 2
+                    want_pos = area_start + m1 + (room - F(prop or 0)) / 2
                 elif align in ('end', 'flex-end', 'self-end') or (axis == 'column' and align == 'right'):
-                    want_pos = area_start + area_size - want_size
+                    want_pos = area_start + area_size - m2 - want_size
                 else:
-                    want_pos = area_start
+                    want_pos = area_start + m1
             if abs(pos - want_pos) > TOL or abs(size - want_size) > TOL:
                 return (f'item {ident} in area {positions[ident]}: {axis}-axis position/size {float(pos)}/{float(size)} '
                         f'(align {align}), its area is at {float(area_start)} with size {float(area_size)}: '
